@@ -1,0 +1,26 @@
+// This Source Code Form is subject to the terms of the Mozilla Public
+// License, v. 2.0. If a copy of the MPL was not distributed with this
+// file, You can obtain one at http://mozilla.org/MPL/2.0/.
+
+//go:build verif
+
+package cache
+
+// Contracts for the deductive verifier in /verif (govc). Comment-only file: it
+// adds no code. Lines starting with //@ are parsed by govc; see /verif/DESIGN.md.
+
+//@ func (*ResourceCache).IsHandled
+//@   trusted
+//@   pure
+//@ func (*ResourceCache).Get
+//@   trusted
+//@   modifies delegated
+//@   ensures delegated == old(delegated) + 1
+//@ func (*ResourceCache).List
+//@   trusted
+//@   modifies delegated
+//@   ensures delegated == old(delegated) + 1
+//@ func (*ResourceCache).ContextWithTeardown
+//@   trusted
+//@   modifies delegated
+//@   ensures delegated == old(delegated) + 1
